@@ -350,3 +350,31 @@ Proof.
   - cbn. repeat split.
   - vm_compute. repeat split; discriminate.
 Qed.
+
+(* ---------------------------------------------------------------- durabilities above LOW and flattening *)
+(* NOT an instance of a theorem (the program is not persisted_closed and the history is not all
+   LOW): computed.  plain(0) = np(0) + 1 over input 0.0, which is made HIGH.  The memo of
+   plain(0) gets durability HIGH; after a LOW write elsewhere it is validated by the durability
+   short-cut (np(0)'s memo stays at the older revision); the snapshot flattens np(0) away; in the
+   restored database a synthetic HIGH write leaves it valid (validated by the walk over the
+   flattened leaf), a HIGH write to the leaf invalidates it, and a write that makes the input
+   LOW again is seen as well. *)
+Definition ops_high : list op :=
+  [OSet (0, 0) 4 (Some 2); OGet (0, 0); OSet (1, 0) 9 None; OGet (0, 0); OSnapshot; ORestore;
+   OGet (0, 0); OSynth 2; OGet (0, 0); OSet (0, 0) 7 None; OGet (0, 0); OSnapshot; ORestore;
+   OSet (0, 0) 8 (Some 0); OGet (0, 0); OGet (3, 0)].
+
+Example ex_high_results :
+  let r := run prog_pq [] nolru ops_high in
+  snd r = [POk 0; POk 5; POk 0; POk 5; POk 0; POk 0; POk 5; POk 0; POk 5; POk 0; POk 8; POk 0; POk 0;
+           POk 0; POk 9; POk 8] /\
+  Statement.wf_ops false false ops_high /\
+  (* executed once; validated by the short-cut after the LOW write; after the restore validated
+     by the walk over the flattened leaf (synthetic HIGH write); executed after each write to it *)
+  List.rev (d_log (ps_db (fst r)))
+  = [EvExec (0, 0); EvExec (3, 0); EvValidate (0, 0); EvValidate (0, 0); EvExec (0, 0); EvExec (3, 0);
+     EvExec (0, 0); EvExec (3, 0)] /\
+  (* the serialised memo: durability HIGH, verified in the revision of the LOW write, one leaf *)
+  option_map (fun m => (m_dur m, m_verified m, m_edges m))
+    (d_memo (ps_db (fst (run prog_pq [] nolru (firstn 6 ops_high)))) (0, 0)) = Some (2, 3, [EIn (0, 0)]).
+Proof. vm_compute. repeat split. Qed.
